@@ -315,15 +315,20 @@ func decode(r *runner, dec string, data []byte) (after func(), err error) {
 		if err != nil {
 			return nil, err
 		}
+		// the decoder is "header.Read + ReadTableBytes of every table": fetching the tables the directory
+		// announces is part of the time/allocation-bounded decode (a ReadTableBytes error is an ordinary result)
+		names := make([]string, 0, len(h.Toc))
+		for n := range h.Toc {
+			names = append(names, n)
+		}
+		sort.Strings(names)
+		for _, n := range names {
+			h.Has(n)
+			h.ReadTableBytes(rd, n)
+		}
 		return func() {
 			r.acc("header.ReadTableBytes", func() {
-				names := make([]string, 0, len(h.Toc))
-				for n := range h.Toc {
-					names = append(names, n)
-				}
-				sort.Strings(names)
 				for _, n := range names {
-					h.Has(n)
 					h.ReadTableBytes(rd, n)
 				}
 			})
